@@ -47,7 +47,7 @@ def build(extras=False, release=False):
     return b
 
 
-def run_lines(cmd, lines, extras=False, release=False, args=(), timeout=600):
+def run_lines(cmd, lines, extras=False, release=False, args=(), timeout=600, tolerant=False):
     """send lines to `verif-native <cmd>`; returns reply lines (same count) or raises Inconclusive."""
     b = build(extras, release)
 
@@ -62,6 +62,22 @@ def run_lines(cmd, lines, extras=False, release=False, args=(), timeout=600):
             raise Inconclusive(f"verif-native {cmd}: rc={p.returncode}, {len(out)} replies for {len(chunk)} requests; stderr: {p.stderr[-1500:]}")
         return out
 
+    if tolerant:
+        # a request may kill the process (stack overflow = abort): replies are line-buffered, so the number of replies received
+        # is the index of the fatal request; it is answered "ABORT <how>" and the rest goes to a new process
+        out = []; rest = list(lines)
+        while rest:
+            try:
+                p = subprocess.run([b, cmd] + list(args), input="\n".join(rest) + "\n", capture_output=True, text=True, timeout=timeout, errors="replace")
+            except subprocess.TimeoutExpired:
+                raise Inconclusive(f"verif-native {cmd}: no answer within {timeout}s")
+            got = p.stdout.split("\n")
+            if got and got[-1] == "": got.pop()
+            if p.returncode == 0 and len(got) == len(rest): return out + got
+            if len(got) >= len(rest): raise Inconclusive(f"verif-native {cmd}: rc={p.returncode} after answering everything; stderr: {p.stderr[-500:]}")
+            out += got + [f"ABORT rc={p.returncode} " + p.stderr.strip().split("\n")[-1][:160]]
+            rest = rest[len(got) + 1:]
+        return out
     if len(lines) < 4000: return one(lines)
     # many requests (thorough tiers): contiguous chunks, one process each (requests are independent; order is kept)
     from concurrent.futures import ThreadPoolExecutor
